@@ -1013,6 +1013,24 @@ def _check_output(rep, f, opname, rule, slot, info, origin=False):
                         problems.append(('time', 'state %s: the sample is emitted at %s instead of %s' % (state, t, 'b0' if past else 'max(b0, 0)'), lp.lineno))
                     if v != 'b2':
                         problems.append(('value', 'state %s: the sample does not carry the value of the segment' % state, lp.lineno))
+    # compression across the clipping point (future kernels): a segment wholly before time 0 leaves no sample; if it still updates the remembered
+    # value, the first segment that reaches into the domain is dropped when it carries the same value -- and the result has no sample at its start
+    if prevname and not past:
+        for posb in ('0=b0', 'b0<0<b1'):          # the predecessor ends where this segment starts (the stack is contiguous)
+            bb0, bb1 = {'0=b0': (0, 1), 'b0<0<b1': (-1, 1)}[posb]
+            for last in (False, True):
+                nstates += 1
+                env = {seg: (Fraction(-3), Fraction(bb0), 'b2'), 'prev': 'other', 'last': False, 'origin-names': origin_names}
+                emitted = []
+                _run_out(lp.body, env, seg, idx, stack, ans, prevname, emitted)      # the clipped predecessor, same value
+                if emitted:
+                    continue            # reported above as spurious
+                env[seg] = (Fraction(bb0), Fraction(bb1), 'b2')
+                env['last'] = last
+                _run_out(lp.body, env, seg, idx, stack, ans, prevname, emitted)
+                if not emitted:
+                    problems.append(('drop-after-clip', 'a segment that ends before time 0 (no sample) followed by a segment with the same value that reaches into the domain (%s%s): '
+                                     'no sample is emitted, the result does not start at the beginning of the domain' % (posb, ', last segment' if last else ''), lp.lineno))
     if prevname:
         top = [s for s in lp.body if s in prevs]
         if not top:
